@@ -97,7 +97,70 @@ def handout_phase(spec):
     return st.to_dict()
 
 
+def feedback_phase(spec):
+    """MathML returned by set_mathml (with the ids the library generated) is sent back as part of a larger expression that also has
+    elements without ids: all ids of the new result must again be distinct and every element must have one"""
+    st = core.Stats()
+    rng = random.Random(spec["seed"])
+    deadline = time.time() + spec["time_budget"]
+    cases = list(spec.get("fixed", []))
+    for _ in range(spec["n"]):
+        tb = gen.Textbook(rng, max_depth=rng.choice([2, 3]), p_ident=0.5)
+        cases.append({"phase": "feedback", "mathml": tb.expression()[0].xml(), "pick": rng.random(), "wrap": rng.choice(["mfrac", "row", "msup", "mtd"])})
+    with core.Session({"TTS": "None"}) as sess:
+        for case in cases:
+            if time.time() > deadline:
+                break
+            r1 = sess.call("set_mathml", case["mathml"], timeout=30)
+            if r1 is None or r1["r"] != "ok":
+                continue
+            try:
+                root1 = ET.fromstring(r1["v"])
+            except ET.ParseError:
+                continue
+            elems = [e for e in root1.iter() if mml.local(e.tag) != "math"]
+            if not elems:
+                continue
+            sub = elems[int(case["pick"] * len(elems)) % len(elems)]
+            if mml.local(sub.tag) in ("mtr", "mtd", "mlabeledtr", "none", "mprescripts"):
+                sub = list(root1)[0]
+            piece = ET.tostring(sub, encoding="unicode")
+            wrap = case["wrap"]
+            if wrap == "mfrac":
+                xml2 = "<math><mfrac>%s<mrow><mi>z</mi><mo>+</mo><mn>1</mn></mrow></mfrac></math>" % piece
+            elif wrap == "msup":
+                xml2 = "<math><msup><mrow><mo>(</mo>%s<mo>)</mo></mrow><mn>2</mn></msup></math>" % piece
+            elif wrap == "mtd":
+                xml2 = "<math><mtable><mtr><mtd>%s</mtd><mtd><mi>z</mi></mtd></mtr></mtable></math>" % piece
+            else:
+                xml2 = "<math><mi>z</mi><mo>=</mo>%s<mo>+</mo><mi>w</mi></math>" % piece
+            r2 = sess.call("set_mathml", xml2, timeout=30)
+            if r2 is None or r2["r"] != "ok":
+                continue
+            st.evaluations += 1
+            try:
+                root2 = ET.fromstring(r2["v"])
+            except ET.ParseError:
+                continue
+            ids = [e.get("id") for e in root2.iter()]
+            bad = None
+            if any(i is None for i in ids):
+                bad = ("feedback-no-id", "an element of the second result has no id")
+            else:
+                dup = sorted(set(i for i in ids if ids.count(i) > 1))
+                if dup:
+                    bad = ("feedback-dup-id", "ids %s occur more than once after returned MathML was sent back inside a larger expression" % dup[:3])
+            if bad:
+                st.violations.append(core.violation(bad[0], bad[0], case, bad[1] + " | first input " + case["mathml"][:300] + " | second input " + xml2[:400]))
+                break
+            st.count("feedback_results_checked")
+            st.nontrivial.add(core.h16(xml2))
+    return st.to_dict()
+
+
 def replay(witness):
+    if witness.get("phase") == "feedback":
+        return feedback_phase({"seed": 0, "n": 0, "fixed": [witness], "time_budget": 60})["violations"]
     if witness.get("phase") == "handout":
         return handout_phase({"seed": 0, "n": 0, "fixed": [witness], "time_budget": 60})["violations"]
     return canon_run.replay(PROP, witness)
@@ -110,6 +173,8 @@ def run(tier, seed):
     results = core.run_shards(canon_run.shard, specs)
     h_specs = [{"seed": core.sub_seed(seed, PROP, "handout", i), "n": 40 if tier == "quick" else 2000, "time_budget": 40 if tier == "quick" else 600} for i in range(core.NPROC)]
     results += core.run_shards(handout_phase, h_specs)
+    f_specs = [{"seed": core.sub_seed(seed, PROP, "feedback", i), "n": 250 if tier == "quick" else 12000, "time_budget": 30 if tier == "quick" else 500} for i in range(core.NPROC)]
+    results += core.run_shards(feedback_phase, f_specs)
     stats, errors = core.Stats.merge(results)
     known, fixed_failures, extra_v = core.replay_findings(PROP, replay)
     stats.violations.extend(extra_v)
@@ -120,5 +185,5 @@ def run(tier, seed):
         t0,
         rule="degenerate and textbook MathML with author-id policies none/some/all/duplicate: every Ok set_mathml result is checked for an id on every element, "
              "pairwise distinct ids, author ids staying on their token's text; second phase: ids returned by navigation, braille-position lookup and SSML/SAPI5 bookmarks "
-             "must be ids of the returned MathML; non-trivial = inputs that carried author ids (phase 1) / walks whose ids were all checked (phase 2)",
+             "must be ids of the returned MathML; third phase: returned MathML (with generated ids) is sent back inside a larger expression and all ids must again be distinct; non-trivial = inputs that carried author ids (phase 1) / walks whose ids were all checked (phase 2)",
         min_nontrivial=300, harness_errors=errors, known_replayed=known, fixed_failures=fixed_failures)
